@@ -562,6 +562,16 @@ func (c *FailoverController) executeFailback(reason string) {
 			zap.Duration("duration", c.config.GracePeriod),
 		)
 		time.Sleep(c.config.GracePeriod)
+
+		// The partner may have failed again during the grace period
+		c.mu.Lock()
+		if c.state != FailoverStateFailbackPending || !c.healthMonitor.IsPartnerHealthy() {
+			c.logger.Warn("Partner not healthy after grace period, canceling failback")
+			c.state = FailoverStateComplete
+			c.mu.Unlock()
+			return
+		}
+		c.mu.Unlock()
 	}
 
 	// Call role change callback
